@@ -4,7 +4,7 @@
    the derived node lies in [lo, hi] ([Inside]) and every node of the derived tree encloses its
    children ([enc_tree]).  Expression trees: from RangeEnc.v. *)
 From GoldV Require Import Base Tokens Lexer AstKinds Tree Strings PComb Grammar Ladder RTComb LadderProofs ExprRT RangeEnc
-                          TypeRT StmtRT DeclRT.
+                          TypeRT OqlRT StmtRT DeclRT.
 From Coq Require Import Lia.
 
 Fixpoint Ord (lo : pos) (ts : list tok) (hi : pos) : Prop :=
@@ -127,6 +127,8 @@ Lemma expr_enc f : EncRel (GExpr f).
 Proof. apply Good_IE. apply gram_good. Qed.
 Lemma dots_enc f : EncRel (GDots f).
 Proof. apply Good_IE. apply GDots_good. Qed.
+Lemma exprk_enc f k : EncRel (GExprK f k).
+Proof. apply Good_IE. apply GExprK_good. Qed.
 
 Lemma terminal_IE lo hi t : Ord lo [t] hi -> IE lo hi (mk_terminal t).
 Proof. intros (A & (B & _) & C). cbn [Ord] in C. split; [osolve|]. apply enc_tree_unfold. constructor. Qed.
@@ -144,7 +146,7 @@ Ltac ord_split :=
   | H : Ord _ [] _ |- _ => cbn [Ord] in H
   end.
 
-Ltac enc_leaf := apply enc_tree_unfold; cbn [nchildren]; constructor.
+Ltac enc_leaf := first [exact I | apply enc_tree_unfold; cbn [nchildren]; constructor].
 Ltac enc_node := apply enc_tree_unfold; cbn [nchildren nrange].
 (* the children one by one: enclosure by arithmetic, enc_tree of each child left to the caller *)
 Ltac enc_kids := repeat (apply Forall_cons || apply Forall_nil); (split; [|osolve]).
@@ -179,6 +181,11 @@ Proof.
   - split; [osolve|]. enc_node. enc_kids; enc_leaf.
 Qed.
 
+Lemma binop_IE0 op l r lo m1 m2 hi : IE lo m1 l -> IE m2 hi r -> pos_le m1 m2 -> IE lo hi (mk_binop op l r).
+Proof.
+  intros [(A & B & C) El] [(A' & B' & C') Er] Hm. unfold mk_binop. split; [osolve|]. enc_node. enc_kids; assumption.
+Qed.
+
 Section TypeEnc.
   Variable RT : rel.
   Hypothesis HRT : EncRel RT.
@@ -211,12 +218,28 @@ Section TypeEnc.
     - eapply Forall_IE_weaken; [|apply pos_le_refl|apply (IH _ Ho)]. osolve.
   Qed.
 
+  Lemma CAtom_enc : EncRel CAtom.
+  Proof.
+    intros ts n lo hi H Ho. destruct H as [t Ht|ob ts vs cb Hob Ha Hcb]; [apply type_basic_IE; exact Ho|].
+    ord_split. pose proof (Args_enc TComma _ EnumVar_enc _ _ _ _ Ha Ol) as Hvs. pose proof (Ord_le _ _ _ Ol). tunf.
+    split; [osolve|]. enc_node. apply (IE_children _ (tend ob) mid); [exact Hvs|osolve|osolve].
+  Qed.
+
+  Lemma CTail_enc rest l res : CTail rest l res -> forall lo mid hi, IE lo mid l -> Ord mid rest hi -> IE lo hi res.
+  Proof.
+    induction 1 as [l|p bts b rest l res Hp Hb Ht IH]; intros lo mid hi Hl Ho.
+    - eapply IE_weaken; [apply pos_le_refl|exact Ho|exact Hl].
+    - ord_split. apply (IH lo mid0 hi); [|exact Ho].
+      apply (binop_IE0 p l b lo mid (tend p) mid0 Hl (CAtom_enc _ _ _ _ Hb Ol)). osolve.
+  Qed.
+
   Lemma TypeF_enc : EncRel (TypeF RT).
   Proof.
     intros ts n lo hi H Ho.
     destruct H as [t Ht|id ob sz cb Hid Hob Hsz Hcb|ob ts vs cb Hob Ha Hcb|k ots opts id its inv Hk Hopt Hid Hi|lo' k hi' Hlo Hk Hhi
                   |ob t cb Hob Ht Hcb|k pts parent fts fields e Hk Hp Hfl He|d t Hd Ht|a i1 n1 k ot Ha H1 Hk Hot
-                  |a i1 n1 i2 n2 k ot Ha H1 H2 Hk Hot|k pts ps Hk Hp|k pts ps rk t Hk Hp Hrk Ht|k t Hk Ht].
+                  |a i1 n1 i2 n2 k ot Ha H1 H2 Hk Hot|k pts ps Hk Hp|k pts ps rk t Hk Hp Hrk Ht|k t Hk Ht
+                  |ats a rest res Hca Hct Hne].
     - apply type_basic_IE. exact Ho.
     - ord_split. tunf. split; [osolve|enc_leaf].
     - ord_split. pose proof (Args_enc TComma _ EnumVar_enc _ _ _ _ Ha Ol) as Hvs. pose proof (Ord_le _ _ _ Ol). tunf.
@@ -245,6 +268,7 @@ Section TypeEnc.
       + destruct Hps as [Ip Ep]. split; [osolve|]. enc_node. enc_kids; first [exact Ep|enc_leaf].
       + split; [osolve|]. enc_node. enc_kids; enc_leaf.
     - ord_split. tunf. split; [osolve|]. enc_node. enc_kids; enc_leaf.
+    - ord_split. apply (CTail_enc _ _ _ Hct lo mid hi); [apply (CAtom_enc _ _ _ _ Hca Ol)|exact Ho].
   Qed.
 End TypeEnc.
 
@@ -321,6 +345,144 @@ Proof.
     destruct ns as [|n' ns']; [cbn [ONodes] in *; osolve|]. destruct IH as (m & [(A & B & C) E] & IH). exists m. split; [|exact IH].
     split; [|exact E]. osolve.
 Qed.
+
+(* ---------- OQL ---------- *)
+
+Lemma ONodes_app lo a m b hi : ONodes lo a m -> ONodes m b hi -> ONodes lo (a ++ b) hi.
+Proof.
+  revert lo. induction a as [|n a IH]; intros lo Ha Hb; cbn [app].
+  - cbn [ONodes] in Ha. destruct b as [|y b]; cbn [ONodes] in *; [osolve|]. destruct Hb as (m' & [(A & B & C) E] & Hb).
+    exists m'. split; [|exact Hb]. split; [osolve|exact E].
+  - destruct Ha as (m' & Hn & Ha). exists m'. split; [exact Hn|apply IH; assumption].
+Qed.
+
+Lemma ONodes_weaken_lo lo lo' ns hi : pos_le lo' lo -> ONodes lo ns hi -> ONodes lo' ns hi.
+Proof.
+  intros Hl H. destruct ns as [|n r]; cbn [ONodes] in *; [osolve|]. destruct H as (m & [(A & B & C) E] & X). exists m.
+  split; [|exact X]. split; [osolve|exact E].
+Qed.
+
+Lemma ONodes_one lo hi n : IE lo hi n -> ONodes lo [n] hi.
+Proof. intro H. exists hi. split; [exact H|apply pos_le_refl]. Qed.
+
+Lemma ONodes_opt lo hi (o : option node) : match o with Some n => IE lo hi n | None => pos_le lo hi end -> ONodes lo (opt_list o) hi.
+Proof. destruct o; cbn [opt_list]; [apply ONodes_one|intro H; exact H]. Qed.
+
+Ltac qunf := unfold mk_oql_call, mk_join, mk_from, mk_order_by, mk_oql_select, mk_oql_fetch in *.
+
+Section OqlEnc.
+  Variables RE RD RC : rel.
+  Hypothesis HRE : EncRel RE.
+  Hypothesis HRD : EncRel RD.
+  Hypothesis HRC : EncRel RC.
+
+  Lemma Star_enc : EncRel Star.
+  Proof. intros ts n lo hi [t Ht] Ho. apply terminal_IE. exact Ho. Qed.
+
+  Lemma SelItem_enc : EncRel (SelItem RD).
+  Proof.
+    intros ts n lo hi H Ho. destruct H as [t Ht|id o c Hid Ho' Hc|id o ts ns c Hid Ho' Ha Hc|ts n Hd Hp].
+    - apply terminal_IE. exact Ho.
+    - ord_split. qunf. split; [osolve|enc_leaf].
+    - ord_split. pose proof (Args_enc TComma _ Star_enc _ _ _ _ Ha Ol) as Hs. pose proof (Ord_le _ _ _ Ol). qunf.
+      split; [osolve|]. enc_node. apply (IE_children _ (tend o) mid); [exact Hs|osolve|osolve].
+    - apply (HRD _ _ _ _ Hd Ho).
+  Qed.
+
+  Lemma Joins_onodes jts joins lo hi : Joins RC jts joins -> Ord lo jts hi -> ONodes lo joins hi.
+  Proof.
+    intro H. revert lo. induction H as [|jt cts cn rest ns Hj Hc Hrest IH]; intros lo Ho; [exact (Ord_le _ _ _ Ho)|].
+    ord_split. destruct (HRC _ _ _ _ Hc Ol) as [(A & B & C) E]. exists mid. split; [|apply (IH _ Ho)].
+    qunf. split; [osolve|]. enc_node. enc_kids; exact E.
+  Qed.
+
+  Lemma FromItem_enc : EncRel (FromItem RC).
+  Proof.
+    intros ts n lo hi H Ho. destruct H as [cond allv ph al ik src sub jts joins Hcond Hallv Hph Hal Hik Hsrc Hsub Hj].
+    assert (forall a b, Ord a jts b -> forall x, pos_le x a ->
+              match rev joins with n :: _ => pos_le x (rend (nrange n)) /\ pos_le (rend (nrange n)) b | [] => True end /\
+              Forall (fun c => enc_tree c /\ pos_le a (rstart (nrange c)) /\
+                               pos_le (rend (nrange c)) (rend (match rev joins with n :: _ => nrange n | [] => nrange c end))) joins) as Hjj.
+    { intros a b Hoj x Hx. pose proof (Joins_onodes _ _ _ _ Hj Hoj) as Hon. pose proof (ONodes_Forall _ _ _ Hon) as Hf.
+      destruct (rev joins) as [|z l] eqn:Er.
+      - apply (f_equal (@rev node)) in Er. rewrite rev_involutive in Er. subst joins. split; [exact I|constructor].
+      - assert (In z joins) as Hz by (apply in_rev; rewrite Er; left; reflexivity).
+        rewrite Forall_forall in Hf. destruct (Hf z Hz) as [(A & B & C) _]. split; [split; osolve|].
+        apply Forall_forall. intros c Hc. destruct (Hf c Hc) as [(A' & B' & C') E']. split; [exact E'|]. split; [exact A'|].
+        apply (ONodes_last _ _ _ _ _ Hon Er c Hc). }
+    destruct cond as [cd|], allv as [av|], ph as [p|], sub as [sb|]; cbn [opt_list app] in Ho; ord_split;
+      pose proof (Ord_le _ _ _ Ho) as Hjle;
+      match type of Ho with Ord ?a _ _ => destruct (Hjj a hi Ho a (pos_le_refl a)) as [Hlast Hkids] end;
+      qunf; destruct (rev joins) as [|z l] eqn:Er;
+      try destruct Hlast as [Hl1 Hl2];
+      (split; [osolve|]); enc_node;
+      (constructor; [split; [enc_leaf|osolve]|]);
+      (apply Forall_forall; intros c Hc; rewrite Forall_forall in Hkids; destruct (Hkids c Hc) as (E' & A' & C');
+       split; [exact E'|]; first [osolve | exfalso; apply (f_equal (@rev node)) in Er; rewrite rev_involutive in Er; cbn in Er; subst joins; destruct Hc]).
+  Qed.
+
+  Lemma OrdItem_enc : EncRel (OrdItem RD).
+  Proof.
+    intros ts n lo hi H Ho. destruct H as [ts n d Hd Hdd]. ord_split. destruct (HRD _ _ _ _ Hd Ol) as [(A & B & C) E].
+    qunf. destruct d as [t|]; cbn [opt_list] in Ho; ord_split; (split; [osolve|]); enc_node; enc_kids; exact E.
+  Qed.
+
+  Theorem OqlStmt_enc : EncRel (OqlStmt RE RD RC).
+  Proof.
+    intros ts n lo hi H Ho.
+    destruct H as [ot st lts lim dist sts sel fk fts frm wts wh obts ob uts us Hot Hst Hlim Hdist Hsel Hfk Hfrm Hwh Hob Hus
+                  |ot fk ik its into uts us Hot Hfk Hik Hinto Hus].
+    - ord_split.
+      (* lts=Ol mid | dist=Ol0 mid0 | sts=Ol1 mid1 | fk | fts=Ol2 mid2 | wts=Ol3 mid3 | obts=Ol4 mid4 | uts=Ho *)
+      assert (match lim with Some n => IE (tend st) mid n | None => pos_le (tend st) mid end) as Hl.
+      { destruct Hlim as [|k v Hk Hv]; [exact (Ord_le _ _ _ Ol)|]. ord_split. split; [osolve|enc_leaf]. }
+      pose proof (Ord_le _ _ _ Ol0) as Hd0.
+      pose proof (Args_onodes TComma _ SelItem_enc _ _ _ _ Hsel Ol1) as Osel.
+      pose proof (Args_onodes TComma _ FromItem_enc _ _ _ _ Hfrm Ol2) as Ofrm.
+      assert (ONodes mid2 (opt_list wh) mid3) as Owh.
+      { destruct Hwh as [|k ts n Hk Hn]; cbn [opt_list]; [exact (Ord_le _ _ _ Ol3)|]. ord_split.
+        destruct (HRE _ _ _ _ Hn Ol3) as [(A & B & C) E]. apply ONodes_one. split; [osolve|exact E]. }
+      assert (ONodes mid3 (olist ob) mid4) as Oob.
+      { destruct Hob as [|k b ts ns Hk Hb Ha]; cbn [olist]; [exact (Ord_le _ _ _ Ol4)|]. ord_split.
+        pose proof (Args_onodes TComma _ OrdItem_enc _ _ _ _ Ha Ol4) as X. eapply ONodes_weaken_lo; [|exact X]. osolve. }
+      assert (ONodes mid4 (opt_list us) hi) as Ous.
+      { destruct Hus as [|k v Hk Hv]; cbn [opt_list]; [exact (Ord_le _ _ _ Ho)|]. ord_split. apply ONodes_one. split; [osolve|enc_leaf]. }
+      assert (ONodes mid0 (sel ++ frm ++ opt_list wh ++ olist ob ++ opt_list us) hi) as Orest.
+      { apply (ONodes_app _ _ mid1); [exact Osel|]. apply (ONodes_app _ _ mid2).
+        - eapply ONodes_weaken_lo; [|exact Ofrm]. osolve.
+        - apply (ONodes_app _ _ mid3); [exact Owh|]. apply (ONodes_app _ _ mid4); [exact Oob|exact Ous]. }
+      set (rest := sel ++ frm ++ opt_list wh ++ olist ob ++ opt_list us) in *.
+      pose proof (Args_length _ _ _ _ Hsel) as Hsl.
+      assert (exists z l, rev rest = z :: l) as (z & l & Er).
+      { destruct (rev rest) as [|z l] eqn:Er; [|eauto]. apply (f_equal (@length node)) in Er. rewrite rev_length in Er. unfold rest in Er.
+        rewrite app_length in Er. simpl in Er. lia. }
+      pose proof (ONodes_Forall _ _ _ Orest) as Hf. pose proof (ONodes_last _ _ _ _ _ Orest Er) as Hlast.
+      assert (In z rest) as Hz by (apply in_rev; rewrite Er; left; reflexivity).
+      rewrite Forall_forall in Hf. destruct (Hf z Hz) as [(Az & Bz & Cz) _].
+      qunf. unfold select_end, last_range. fold rest. rewrite Er.
+      pose proof (Ord_le _ _ _ Ol0). pose proof (Ord_le _ _ _ Ol). split; [osolve|]. enc_node. apply Forall_app. split.
+      + destruct lim as [n0|]; cbn [opt_list]; [|constructor]. destruct Hl as [(A & B & C) E]. constructor; [|constructor].
+        split; [exact E|]. osolve.
+      + apply Forall_forall. intros c Hc. destruct (Hf c Hc) as [(A & B & C) E]. split; [exact E|].
+        unfold encloses. cbn [new_range rstart rend]. split; [osolve|apply Hlast; exact Hc].
+    - ord_split. pose proof (Args_onodes TComma _ HRD _ _ _ _ Hinto Ol) as Oin.
+      assert (ONodes mid (opt_list us) hi) as Ous.
+      { destruct Hus as [|k v Hk Hv]; cbn [opt_list]; [exact (Ord_le _ _ _ Ho)|]. ord_split. apply ONodes_one. split; [osolve|enc_leaf]. }
+      pose proof (ONodes_app _ _ _ _ _ Oin Ous) as Oall. pose proof (ONodes_Forall _ _ _ Oall) as Hf.
+      pose proof (Args_length _ _ _ _ Hinto) as Hil.
+      assert (exists z l, rev (into ++ opt_list us) = z :: l) as (z & l & Er).
+      { destruct (rev (into ++ opt_list us)) as [|z l] eqn:Er; [|eauto]. apply (f_equal (@length node)) in Er. rewrite rev_length, app_length in Er. cbn [length] in Er. lia. }
+      pose proof (ONodes_last _ _ _ _ _ Oall Er) as Hlast.
+      assert (In z (into ++ opt_list us)) as Hz by (apply in_rev; rewrite Er; left; reflexivity).
+      rewrite Forall_forall in Hf. destruct (Hf z Hz) as [(Az & Bz & Cz) _].
+      assert ((match us with Some n => nrange n | None => last_range into (trange ik) end) = nrange z) as Ez.
+      { destruct us as [u|]; cbn [opt_list] in Er.
+        - rewrite rev_app_distr in Er. cbn in Er. inversion Er. reflexivity.
+        - rewrite app_nil_r in Er. unfold last_range. rewrite Er. reflexivity. }
+      qunf. rewrite Ez. split; [osolve|]. enc_node. apply Forall_forall. intros c Hc. destruct (Hf c Hc) as [(A & B & C) E].
+      split; [exact E|]. unfold encloses. cbn [new_range rstart rend]. split; [osolve|apply Hlast; exact Hc].
+  Qed.
+End OqlEnc.
 
 Section StmtEnc.
   Variable f : nat.
@@ -443,7 +605,7 @@ Section StmtEnc.
   Theorem Stmt_enc : EncRel (Stmt f RS).
   Proof.
     intros ts n lo hi H Ho.
-    destruct H as [tl nl op tr nr Hl Hhd Hop Hr|ts n Hd Hhd|ts n op Hd Hhd Hop|rt ts n Hrt He|t Ht|c Hc
+    destruct H as [tl nl op tr nr Hl Hhd Hjl Hop Hr|ts n Hd Hhd Hjl|ts n op Hd Hhd Hjl Hop|rt ts n Hrt He|t Ht|c Hc
                   |vt id col tts tn Hvt Hid Hcol Hty|wt cts cn body ns e Hwt Hc Hseq He|lt body ns e Hlt Hseq He
                   |rt body ns u cts cn Hrt Hseq Hu Hc
                   |ft vt eq lts ln top hts hn body ns e Hft Hvt Heq Hlo Htop Hhi Hseq He
@@ -454,6 +616,7 @@ Section StmtEnc.
                   |tk id col tts tn Htk Hid Hcol Hty
                   |ft ets en dt ut body ns e Hft Hen Hdt Hut Hseq He
                   |st ets en wts whens elts els e Hst Hen Hwh Hel He
+                  |ts n Hoql
                   |it cts cn k tail pre last e Hit Hc Htail].
     - (* assignment *)
       ord_split. apply (binop_IE op nl nr lo mid (tend op) hi); [apply (dots_enc (S f) _ _ _ _ Hl Ol)|apply (expr_enc (S f) _ _ _ _ Hr Ho)|osolve].
@@ -518,6 +681,8 @@ Section StmtEnc.
       + destruct Hel as [|et body ns Het Hseq]; cbn [option_map opt_list fst snd]; [constructor|].
         ord_split. pose proof (Seq_enc _ _ _ _ _ Hseq Ol1) as Hb. pose proof (Ord_le _ _ _ Ol1).
         constructor; [|constructor]. split; [|osolve]. enc_node. apply (IE_children _ (tend et) mid1); [exact Hb|osolve|osolve].
+    - (* oql *)
+      apply (OqlStmt_enc _ _ _ (expr_enc (S f)) (dots_enc (S f)) (exprk_enc (S f) 2) _ _ _ _ Hoql Ho).
     - (* if *)
       ord_split. destruct (expr_enc (S f) _ _ _ _ Hc Ol) as [(A & B & C) Ec].
       destruct (IfTail_enc _ _ _ _ Htail eq_refl (tstart it) (tend it) mid hi ltac:(apply pos_le_refl) ltac:(apply Ow) ltac:(apply pos_le_refl)
@@ -621,6 +786,16 @@ Qed.
 Section DeclEnc.
   Variable fuel : nat.
 
+  Lemma Host_enc : EncRel (Host fuel).
+  Proof.
+    intros ts n lo hi H Ho.
+    destruct H as [ct nt Hct Hnt|ct nt o p c Hct Hnt Ho' Hp Hc|mt nm Hmt Hnm|tk id col tts tn Htk Hid Hcol Hty].
+    - ord_split. dunf. split; [osolve|enc_leaf].
+    - ord_split. dunf. split; [osolve|enc_leaf].
+    - ord_split. dunf. split; [osolve|enc_leaf].
+    - ord_split. destruct (type_enc (S fuel) _ _ _ _ Hty Ho) as [(A & B & C) E]. sunf. split; [osolve|]. enc_node. enc_kids; exact E.
+  Qed.
+
   Theorem Decl_enc : EncRel (Decl fuel).
   Proof.
     intros ts n lo hi H Ho.
@@ -630,7 +805,8 @@ Section DeclEnc.
                   |pt nts name pts ps mts mrs body ns e Hpt Hname Hps Hmods Hhb Hseq Hb He
                   |pt nts name pts ps mts mrs Hpt Hname Hps Hmods Hhb
                   |ft nts name pts ps rk rt mts mrs body ns e Hft Hname Hps Hrk Hrt Hmods Hhb Hseq Hb He
-                  |ft nts name pts ps rk rt mts mrs Hft Hname Hps Hrk Hrt Hmods Hhb].
+                  |ft nts name pts ps rk rt mts mrs Hft Hname Hps Hrk Hrt Hmods Hhb
+                  |o abody c ts n Hob Hab Hcb Hh].
     - ord_split. dunf. split; [osolve|enc_leaf].
     - ord_split. dunf. split; [osolve|enc_leaf].
     - ord_split. dunf. split; [osolve|enc_leaf].
@@ -676,15 +852,22 @@ Section DeclEnc.
       pose proof (Mods_span _ _ _ _ Hmods Ho) as Hms. pose proof (Ord_le _ _ _ Ol0). pose proof (Ord_le _ _ _ Ho).
       dunf. destruct (method_mods_info mrs) as [[[mr rr] fl]|]; destruct ps as [pn|]; cbn [OptIE opt_list app fst snd] in *;
         try destruct Hpe as [(A' & B' & C') Ep]; (split; [osolve|]); enc_node; enc_kids; first [exact En|exact Ep|enc_leaf].
+    - (* [ annotation ] host *)
+      ord_split. pose proof (Ord_le _ _ _ Ol). eapply IE_weaken; [|apply pos_le_refl|apply (Host_enc _ _ _ _ Hh Ho)]. osolve.
   Qed.
 
-  (* a derivable file: every declaration node lies inside the file and every node in it encloses its children *)
-  Theorem Decls_enc ts ns lo hi : Decls fuel ts ns -> Ord lo ts hi -> Forall (IE lo hi) ns.
+  (* a derivable file: every declaration node lies inside the file and every node in it encloses its children; the
+     empty node a stand-alone annotation leaves has no position (default range) and no children *)
+  Theorem Decls_enc ts ns lo hi : Decls fuel ts ns -> Ord lo ts hi -> Forall (fun n => n = mk_empty_default \/ IE lo hi n) ns.
   Proof.
-    intro H. revert lo. induction H as [|ts n ts' ns Hd Hds IH Hfo]; intros lo Ho; [constructor|].
-    ord_split. pose proof (Ord_le _ _ _ Ho). pose proof (Ord_le _ _ _ Ol). constructor.
-    - eapply IE_weaken; [apply pos_le_refl| |apply (Decl_enc _ _ _ _ Hd Ol)]. osolve.
-    - eapply Forall_IE_weaken; [|apply pos_le_refl|apply (IH _ Ho)]. osolve.
+    intro H. revert lo. induction H as [|ts n ts' ns Hd Hds IH Hfo|o abody c ts' ns Hob Hab Hcb Hr Hds IH]; intros lo Ho; [constructor| |].
+    - ord_split. pose proof (Ord_le _ _ _ Ho). pose proof (Ord_le _ _ _ Ol). constructor.
+      + right. eapply IE_weaken; [apply pos_le_refl| |apply (Decl_enc _ _ _ _ Hd Ol)]. osolve.
+      + eapply Forall_impl; [|apply (IH _ Ho)]. intros x [->|Hx]; [left; reflexivity|right].
+        eapply IE_weaken; [|apply pos_le_refl|exact Hx]. osolve.
+    - ord_split. pose proof (Ord_le _ _ _ Ol). constructor; [left; reflexivity|].
+      eapply Forall_impl; [|apply (IH _ Ho)]. intros x [->|Hx]; [left; reflexivity|right].
+      eapply IE_weaken; [|apply pos_le_refl|exact Hx]. osolve.
   Qed.
 End DeclEnc.
 
@@ -702,5 +885,5 @@ Proof.
   intros H Ht. destruct ts as [|t r]; [inversion H; [constructor|]|].
   - match goal with Hd : Decl _ ?a _, E : ?a ++ _ = [] |- _ => pose proof (Decl_nonempty _ _ _ Hd); destruct a; [simpl in *; lia|discriminate] end.
   - pose proof (Decls_enc fuel _ _ _ _ H (tord_Ord _ Ht ltac:(discriminate))) as Hf.
-    eapply Forall_impl; [|exact Hf]. intros n [_ E]. exact E.
+    eapply Forall_impl; [|exact Hf]. intros n [->|[_ E]]; [|exact E]. apply enc_tree_unfold. constructor.
 Qed.
